@@ -225,4 +225,64 @@ def Period.text (p : Period) : List Char :=
     "weekday:".toList ++ weekText cy w ++ ['-'] ++ intText wd ++ [':'] ++ intText p.size
   else p.unit.name.toList ++ [':'] ++ ym ++ [':'] ++ intText p.size
 
+/-- `_parsers.parse_unit(value: str)` called directly -/
+def parseUnit (cs : List Char) : Except String DUnit :=
+  match lexIso cs with
+  | none => .error "instant"
+  | some t => match tokUnit t with
+    | some u => .ok u
+    | none => .error "index"
+
+/-- `helpers.key_period_size`: `f"{unit_weight(period.unit)}_{period.size}"` -/
+def keyPeriodSize (p : Period) : List Char := intText (unitWeight p.unit) ++ ['_'] ++ intText p.size
+
+/-! ## `helpers.instant(value)` and `helpers.period(value)` on every accepted argument type
+
+The argument as the caller writes it.  `date` is a `datetime.date` (also `pendulum.Date`,
+`datetime.datetime`): a real calendar date by construction.  `seq` is a list / tuple (any `Sequence`)
+of `int`s.  A `DateUnit` member is a `str` (its name).  `other` is anything else (a float, a dict, a
+sequence holding something that is not an `int`, a numpy integer …). -/
+inductive PyVal
+  | none
+  | int (i : Int)
+  | str (cs : List Char)
+  | instant (c : Date)
+  | period (p : Period)
+  | date (c : Date)
+  | seq (xs : List Int)
+  | other
+deriving Repr, Inhabited
+
+/-- `Instant((list(value) + [1] * 3)[:3])` -/
+def seqDate (xs : List Int) : Option Date :=
+  match (xs ++ List.replicate 3 1).take 3 with
+  | [y, m, d] => some ⟨y, m, d⟩
+  | _ => none
+
+/-- `helpers.instant(value)` (single dispatch on the type of the argument); nothing is validated
+    except text -/
+def instantOf : PyVal → Except String Date
+  | .none => .error "instant"
+  | .int i => .ok ⟨i, 1, 1⟩
+  | .str cs => parseInstant cs
+  | .instant c => .ok c
+  | .period p => .ok p.start
+  | .date c => .ok c
+  | .seq xs => if xs.isEmpty then .error "instant" else
+      match seqDate xs with
+      | some c => .ok c
+      | none => .error "instant"
+  | .other => .error "instant"
+
+/-- `helpers.period(value)` (single dispatch on the type of the argument) -/
+def periodOf : PyVal → Except String Period
+  | .none => .error "period"
+  | .int i => do let c ← instantOf (.int i); .ok ⟨.year, c, 1⟩
+  | .str cs => parsePeriod cs
+  | .instant c => .ok ⟨.day, c, 1⟩
+  | .period p => .ok p
+  | .date c => do let s ← instantOf (.date c); .ok ⟨.day, s, 1⟩
+  | .seq _ => .error "period"
+  | .other => .error "period"
+
 end OFCore
